@@ -275,6 +275,16 @@ func (c13) Run(c core.Case, w *core.Worker) core.Result {
 			break
 		}
 		curKind = "between"
+		if e := io.ActiveEnd(); e > 0 && e%vfmt.Block == 0 && (op.Kind == "put" || op.Kind == "batch") && r.Chance(2, 3) {
+			// the active file ends exactly on a block boundary: an explicit Sync here
+			res.Add("syncs_at_block_boundary", 1)
+			cur = core.Op{Kind: "sync"}
+			curKind = "sync"
+			if !s.Exec(cur) {
+				break
+			}
+			curKind = "between"
+		}
 	}
 	if s.DB != nil && !s.Dead {
 		cur = core.Op{Kind: "close"}
